@@ -221,7 +221,8 @@ class Ctx:
 
     # budgets -------------------------------------------------------------
     def n(self, quick, thorough):
-        return quick if self.tier == "quick" else thorough
+        base = quick if self.tier == "quick" else thorough
+        return int(base * getattr(self, "scale", 1))
 
     def elapsed(self):
         return time.time() - self.t0
@@ -404,6 +405,15 @@ def main(argv):
             broken_files.append(f)
     pa_ok, pa_out, axioms = print_assumptions(prop) if not broken_files else (False, build_log[-3000:], [])
     proofs_ok = bool(files) and not broken_files and pa_ok
+    coqchk_summary = None
+    if tier == "thorough" and proofs_ok:
+        # independent re-check of the compiled property file and everything it depends on
+        rc, out = _run(["timeout", "3000", "coqchk", "-silent", "-o", "-Q", str(COQ), "CubedV", f"CubedV.Props.{prop}"], cwd=COQ, timeout=3100)
+        m = re.search(r"\* Axioms:(.*?)\n\s*\n", out, re.S)
+        coqchk_summary = {"exit": rc, "axioms": (m.group(1).strip() if m else "?")}
+        if rc != 0:
+            proofs_ok = False
+            pa_out = out
     broken_thm = None
     if not proofs_ok:
         m = re.search(r'File "([^"]+)", line (\d+)', pa_out if broken_files == [] else build_log)
@@ -418,9 +428,19 @@ def main(argv):
         crashed = traceback.format_exc()
 
     corr_bad = [s for s in ctx.suites if s["mismatches"] or s["errors"]]
-    if (not proofs_ok or corr_bad) and not ctx.failures and hasattr(mod, "search") and crashed is None:
+    if (not proofs_ok or corr_bad) and not ctx.failures and crashed is None:
+        # a proof or a correspondence broke and the oracle found nothing yet: search the implementation for a concrete
+        # failing input with a larger budget and fresh seeds (the module's own search, then its whole run at 4x quick budget)
         try:
-            mod.search(ctx)
+            if hasattr(mod, "search"):
+                mod.search(ctx)
+            if not ctx.failures and tier == "quick":
+                ctx2 = Ctx(prop, tier, seed + 7919)
+                ctx2.scale = 4
+                mod.run(ctx2)
+                ctx.failures.extend(ctx2.failures)
+                ctx.evaluations += ctx2.evaluations + sum(s_["cases"] for s_ in ctx2.suites)
+                ctx.notes.append(f"extended search after a broken proof/correspondence: {ctx2.evaluations} more oracle evaluations, {len(ctx2.failures)} failures")
         except Exception:
             crashed = traceback.format_exc()
 
@@ -489,6 +509,7 @@ def main(argv):
                 "harness (generators, canonicalisation), CPython/NumPy/Zarr/networkx in /venv",
             ] + list(getattr(mod, "TRUSTED", [])),
             "theorems": thms,
+            "coqchk": coqchk_summary,
             "suites": [{"suite": s["suite"], "cases": s["cases"], "mismatches": len(s["mismatches"]),
                         "errors": len(s["errors"])} for s in ctx.suites],
             "evaluations": max(ctx.evaluations + sum(s["cases"] for s in ctx.suites), 1),
